@@ -75,7 +75,10 @@ OvmbRead(ln) ==
              \o (IF ok THEN "|accepted" ELSE "|rejected")
   IN
   IF ln.res \in {"Crash", "Timeout"} THEN
-       (IF Want("C07") THEN R("C07:" \o ln.res \o ":" \o CrashContext(P, ln.tc, failed), cls) ELSE R("", cls))
+       (IF Want("C07") THEN R("C07:" \o ln.res \o ":" \o CrashContext(P, ln.tc, failed), cls)
+        ELSE IF Want("C18") /\ (failed \/ (~P.ok /\ P.strict))
+             THEN R("C18:InvalidFileNotRejected:" \o ln.res \o ":" \o CrashContext(P, ln.tc, failed), cls)   \* dying is not a result other than Ok
+        ELSE R("", cls))
   ELSE IF Want("C07") /\ ~ok /\ ln.res \notin ErrorResults THEN R("C07:UnexpectedResult:" \o ln.res, cls)
   ELSE IF Want("C07") /\ ln.res \in AllocResults /\ ~DeclaresLargeSize(ln.bytes) THEN R("C07:AllocationFailureWithoutLargeField", cls)
   ELSE IF Want("C07") /\ ok /\ ~WellFormedMesh(ln.mesh) THEN R("C07:NotWellFormed", cls)
